@@ -26,7 +26,6 @@ CAPDATA_FIELD_ROLES = {"cap_name": NAME, "base_url": URL, "type": TYPE}
 # state-field owner table (DESIGN.md A.1)
 CAPS_OWNERS = {"ProxiedRegion.__init__", "ProxiedRegion.update_caps", "ProxiedRegion.register_cap",
                "ProxiedRegion.resolve_cap"}
-LOOKUP_OWNERS = {"ProxiedRegion.__init__", "ProxiedRegion._recalc_caps"}
 
 TABLE_MUTATORS = {"add", "extend", "update", "popone", "popall", "pop", "popitem", "setdefault", "clear"}
 TABLE_REMOVERS = {"popone", "popall", "pop", "popitem", "clear"}
@@ -70,6 +69,30 @@ class Model:
                                if isinstance(st, ast.AnnAssign) and isinstance(st.target, ast.Name)]
         ctx.require(all(k in self.capdata_fields for k in CAPDATA_FIELD_ROLES), "CapData lost cap_name/base_url/type")
 
+    def rebuild_method(self):
+        """The reverse-index rebuild method, found structurally: the one non-constructor method of
+        ProxiedRegion that stores entries into self._caps_url_lookup."""
+        if getattr(self, "_rebuild", None) is None:
+            cands = []
+            for m in self.region.methods.values():
+                if m.name == "__init__":
+                    continue
+                if any(st.path == "self._caps_url_lookup" and st.kind in ("setitem", "mutcall") and
+                       (st.kind == "setitem" or st.method in ("update", "setdefault")) for st in stores(m.node)):
+                    cands.append(m)
+            if len(cands) > 1:
+                # an extra writer is an ownership violation (reported by R3); the rebuild is the one that also resets
+                narrowed = [m for m in cands if any(st.path == "self._caps_url_lookup" and
+                                                    ((st.kind == "mutcall" and st.method == "clear") or st.kind == "assign")
+                                                    for st in stores(m.node))]
+                if len(narrowed) == 1:
+                    cands = narrowed
+            if len(cands) != 1:
+                raise AnalysisError(f"expected exactly one ProxiedRegion method filling _caps_url_lookup, found "
+                                    f"{[c.qual for c in cands]}")
+            self._rebuild = cands[0]
+        return self._rebuild
+
     def module_aware(self, mod) -> bool:
         if mod.rel.startswith("hippolyzer/lib/proxy/"):
             return True
@@ -110,6 +133,7 @@ class RoleFlow:
         self.layouts: Dict[str, Set[tuple]] = {}
         self.lists: Dict[str, Set[tuple]] = {}
         self.key_of: Dict[str, Set[str]] = {}
+        self.scope: Dict[str, Set[str]] = {}      # name -> {"all" (every entry of a key / table), "first" (newest only)}
         self.use_roles: Dict[str, Set[str]] = {}
         self.resolved_names: Set[str] = set()
         self.checks: List[Tuple[ast.AST, ast.AST, str, str]] = []   # (context, expr, declared, demanded)
@@ -173,17 +197,21 @@ class RoleFlow:
         if isinstance(target, ast.Name):
             self.roles.setdefault(target.id, set()).add(role)
 
-    def _bind_layout(self, target, layout, key: Optional[str]):
+    def _bind_layout(self, target, layout, key: Optional[str], scope: Optional[str] = None):
         if isinstance(target, ast.Name):
             self.layouts.setdefault(target.id, set()).add(layout)
             if key:
                 self.key_of.setdefault(target.id, set()).add(key)
+            if scope:
+                self.scope.setdefault(target.id, set()).add(scope)
         elif isinstance(target, (ast.Tuple, ast.List)) and len(target.elts) == len(layout) and \
                 not any(isinstance(x, ast.Starred) for x in target.elts):
             for t, r in zip(target.elts, layout):
                 self._bind_role(t, r)
                 if key and isinstance(t, ast.Name):
                     self.key_of.setdefault(t.id, set()).add(key)
+                if scope and isinstance(t, ast.Name):
+                    self.scope.setdefault(t.id, set()).add(scope)
 
     def _bind_iter(self, target, it):
         while isinstance(it, ast.Call) and isinstance(it.func, ast.Name) and it.func.id in COPY_CALLS | {"reversed"} and it.args:
@@ -194,7 +222,7 @@ class RoleFlow:
                 if isinstance(target, (ast.Tuple, ast.List)) and len(target.elts) == 2:
                     k, v = target.elts
                     self._bind_role(k, TABLES[t]["key"])
-                    self._bind_layout(v, TABLES[t]["value"], k.id if isinstance(k, ast.Name) else None)
+                    self._bind_layout(v, TABLES[t]["value"], k.id if isinstance(k, ast.Name) else None, "all")
                 return
             if t and it.func.attr == "keys":
                 self._bind_role(target, TABLES[t]["key"])
@@ -205,7 +233,13 @@ class RoleFlow:
             return
         ll = self.list_layout(it)
         if ll:
-            self._bind_layout(target, ll, None)
+            key = None
+            if isinstance(it, ast.Call) and it.args and isinstance(it.args[0], ast.Name):
+                key = it.args[0].id          # getall(name) / popall(name)
+            elif isinstance(it, ast.Name):
+                ks = self.key_of.get(it.id, set())
+                key = next(iter(ks)) if len(ks) == 1 else None
+            self._bind_layout(target, ll, key, "all")
 
     def _bind_pass(self):
         for n in walk(self.fn, into_defs=True):
@@ -218,15 +252,20 @@ class RoleFlow:
                 lay = self.value_layout(v)
                 if lay:
                     k = self.key_expr(v)
-                    self._bind_layout(tgt, lay, k.id if isinstance(k, ast.Name) else None)
+                    sc = "first" if k is not None else next(iter(self.scope_for(v)), None)
+                    self._bind_layout(tgt, lay, k.id if isinstance(k, ast.Name) else None, sc)
                 ll = self.list_layout(v)
                 if ll and isinstance(tgt, ast.Name):
                     self.lists.setdefault(tgt.id, set()).add(ll)
+                    if isinstance(v, ast.Call) and v.args and isinstance(v.args[0], ast.Name):
+                        self.key_of.setdefault(tgt.id, set()).add(v.args[0].id)
                 r = self.role_of(v)
                 if r and isinstance(tgt, ast.Name):
                     self._bind_role(tgt, r)
                     for k in self.keys_for(v):
                         self.key_of.setdefault(tgt.id, set()).add(k)
+                    for sc in self.scope_for(v):
+                        self.scope.setdefault(tgt.id, set()).add(sc)
                 if isinstance(v, ast.Call) and call_attr(v) == "resolve_cap":
                     if isinstance(tgt, ast.Name):
                         self.resolved_names.add(tgt.id)
@@ -255,6 +294,18 @@ class RoleFlow:
             if isinstance(k, ast.Name):
                 return {k.id}
             return self.keys_for(e.value)
+        return set()
+
+    def scope_for(self, e) -> Set[str]:
+        """Was the value read from every entry ("all") or only from the newest entry of its name ("first")?"""
+        if isinstance(e, ast.Name):
+            return set(self.scope.get(e.id, set()))
+        if isinstance(e, ast.Subscript):
+            if self.key_expr(e.value) is not None or self.key_expr(e) is not None:
+                return {"first"}
+            return self.scope_for(e.value)
+        if isinstance(e, ast.Call) and self.key_expr(e) is not None:
+            return {"first"}
         return set()
 
     def role_any(self, e) -> Optional[str]:
@@ -667,9 +718,9 @@ def caps_mutations(model: Model):
 
 # --------------------------------------------------------------------------- R3
 
-def _recalc_nodes(cfg: CFG):
+def _recalc_nodes(cfg: CFG, rebuild_name: str):
     return {n for n in cfg.nodes if n.ast is not None and n.kind in ("stmt", "test", "loop", "with") and
-            any(call_attr(c) == "_recalc_caps" for c in calls(cfg._head_expr(n.ast) if n.kind != "stmt" else n.ast))}
+            any(call_attr(c) == rebuild_name for c in calls(cfg._head_expr(n.ast) if n.kind != "stmt" else n.ast))}
 
 
 def iteration_mutations(ctx, rule: str, repo, fi, model: Optional[Model] = None):
@@ -716,9 +767,11 @@ def iteration_mutations(ctx, rule: str, repo, fi, model: Optional[Model] = None)
 def r3(ctx, model: Model):
     repo = ctx.repo
     ctx.rule("C16.R3", "reverse index freshness: caps / _caps_url_lookup are written only by their owners; every "
-                       "mutation of caps reaches _recalc_caps() before the function returns; _recalc_caps rebuilds the "
+                       "mutation of caps reaches the index rebuild (_recalc_caps) before the function returns; it rebuilds the "
                        "index from scratch over all caps; no table is resized while iterated")
     muts = caps_mutations(model)
+    rebuild = model.rebuild_method()
+    lookup_owners = {"ProxiedRegion.__init__", rebuild.qual}
     ctx.floor("C16.R3", "mutations of ProxiedRegion.caps", len(muts), 3)
     cfgs: Dict[str, CFG] = {}
     for fi, node, kind, method in muts:
@@ -730,7 +783,7 @@ def r3(ctx, model: Model):
         starts = cfg.stmt_nodes_containing(node) if not isinstance(node, ast.stmt) else cfg.nodes_for(node)
         if not starts:
             raise AnalysisError(f"C16.R3: mutation `{norm(node)}` not found in the CFG of {q}")
-        rn = _recalc_nodes(cfg)
+        rn = _recalc_nodes(cfg, rebuild.name)
         stale = None
         for s in starts:
             if s in rn:
@@ -739,7 +792,7 @@ def r3(ctx, model: Model):
             if path is not None:
                 stale = cfg.describe_path([s] + path)
                 break
-        ctx.ob("C16.R3", f"{q}: {label} is followed by _recalc_caps() on every path", stale is None, ctx.w(fi, node),
+        ctx.ob("C16.R3", f"{q}: {label} is followed by the index rebuild on every path", stale is None, ctx.w(fi, node),
                "the URL -> cap index is stale when the function returns: resolve_cap misses the new URL or still "
                "resolves a removed one", path=stale)
     # lookup ownership
@@ -752,30 +805,30 @@ def r3(ctx, model: Model):
                     (st.kind == "assign" and st.path.endswith("._caps_url_lookup")):
                 n_l += 1
                 ctx.ob("C16.R3", f"_caps_url_lookup written in {fi.qual}: {st.kind}{'.' + st.method if st.method else ''}",
-                       fi.qual in LOOKUP_OWNERS, ctx.w(fi, st.node), "the reverse index is written outside _recalc_caps")
+                       fi.qual in lookup_owners, ctx.w(fi, st.node), "the reverse index is written outside its rebuild method")
     ctx.floor("C16.R3", "writes of _caps_url_lookup", n_l, 2)
-    # _recalc_caps shape
-    rf = repo.fn("ProxiedRegion._recalc_caps")
+    # rebuild method shape
+    rf = rebuild
     cfg = CFG(rf.node)
     fills = [s for s in stores(rf.node) if s.path == "self._caps_url_lookup" and s.kind == "setitem"]
     resets = [s for s in stores(rf.node) if s.path == "self._caps_url_lookup" and
               ((s.kind == "mutcall" and s.method == "clear") or s.kind == "assign")]
-    ctx.ob("C16.R3", "_recalc_caps fills the index", len(fills) >= 1, rf.where)
+    ctx.ob("C16.R3", "index rebuild fills the index", len(fills) >= 1, rf.where)
     reset_nodes = {n for s in resets for n in cfg.stmt_nodes_containing(s.node)} | \
                   {n for s in resets for n in cfg.nodes_for(s.node)}
     for s in fills:
         sn = cfg.nodes_for(s.node) or cfg.stmt_nodes_containing(s.node)
         reach = cfg.reachable([cfg.entry], avoid=lambda n: n in reset_nodes)
-        ctx.ob("C16.R3", "_recalc_caps empties the index before refilling it", bool(reset_nodes) and
+        ctx.ob("C16.R3", "index rebuild empties the index before refilling it", bool(reset_nodes) and
                not any(n in reach for n in sn), ctx.w(rf, s.node),
                "URLs of caps that were removed (consumed temporary caps) keep resolving")
         loops = [a for a in ancestors(s.node) if isinstance(a, ast.For)]
         over_all = bool(loops) and isinstance(loops[-1].iter, ast.Call) and call_attr(loops[-1].iter) == "items" and \
             model.is_caps_attr(loops[-1].iter.func.value, rf)
         cond = [norm(e) for e, _ in facts(s.node, rf.node)]
-        ctx.ob("C16.R3", "_recalc_caps indexes every (name, value) of caps.items()", over_all and not cond, ctx.w(rf, s.node),
+        ctx.ob("C16.R3", "index rebuild indexes every (name, value) of caps.items()", over_all and not cond, ctx.w(rf, s.node),
                f"index entry written under conditions {cond}" if cond else "the fill is not a loop over self.caps.items()")
-    for q in sorted(CAPS_OWNERS | LOOKUP_OWNERS | {"CapsMultiDict.add", "ProxiedRegion.register_wrapper_cap",
+    for q in sorted(CAPS_OWNERS | lookup_owners | {"CapsMultiDict.add", "ProxiedRegion.register_wrapper_cap",
                                                    "ProxiedRegion.register_proxy_cap", "Session.resolve_cap"}):
         iteration_mutations(ctx, "C16.R3", repo, repo.fn(q))
 
@@ -832,8 +885,13 @@ def r4(ctx, model: Model):
                 good = good and ap(a.elts[1]) in matched
                 ctx.ob("C16.R4", "resolve_cap: the dropped entry is the matched (type, url)", bool(good), ctx.w(f, c),
                        f"`{norm(c)}` does not remove (type, url) of the URL that matched the request")
+            def uses_list(c):
+                if lst in {x.id for x in ast.walk(c) if isinstance(x, ast.Name)}:
+                    return True
+                return any(isinstance(a, ast.For) and lst in {x.id for x in ast.walk(a.iter) if isinstance(x, ast.Name)}
+                           for a in ancestors(c))
             re_ins = [c for c in calls(f.node) if isinstance(c.func, ast.Attribute) and c.func.attr in ("extend", "add") and
-                      model.is_caps_attr(c.func.value, f) and temp_fact(c) and lst in {x.id for x in ast.walk(c) if isinstance(x, ast.Name)}]
+                      model.is_caps_attr(c.func.value, f) and temp_fact(c) and uses_list(c)]
             ctx.ob("C16.R4", "resolve_cap: remaining values of that name are re-inserted", len(re_ins) >= 1, ctx.w(f, n),
                    "popall drops every cap registered under the name, not only the matched one")
             for c in re_ins:
@@ -843,7 +901,9 @@ def r4(ctx, model: Model):
                     # add() prepends: the list must be walked newest-last
                     loops = [a for a in ancestors(c) if isinstance(a, ast.For)]
                     order_ok = bool(loops) and isinstance(loops[0].iter, ast.Call) and ap(loops[0].iter.func) == "reversed"
-                ctx.ob("C16.R4", f"resolve_cap: `{norm(c)}` keeps the remaining values in order", bool(order_ok), ctx.w(f, c))
+                ctx.ob("C16.R4", f"resolve_cap: `{norm(c)}` keeps the remaining values in order", bool(order_ok), ctx.w(f, c),
+                       "CapsMultiDict.add prepends: re-adding the survivors oldest-last reverses them, so lookup by name "
+                       "no longer yields the most recent grant" if c.func.attr == "add" else "")
                 # re-insert after the removal
                 cfg = CFG(f.node)
                 rn = {x for r in rem for x in cfg.stmt_nodes_containing(r)}
@@ -869,6 +929,21 @@ def r4(ctx, model: Model):
 
 
 # --------------------------------------------------------------------------- R5
+
+def _expanded_facts(node, stop):
+    """facts(), plus the element conditions of a dominating `any(<generator>)` (they hold for some entry)."""
+    out = []
+    for e, pol in facts(node, stop):
+        out.append((e, pol))
+        if pol and isinstance(e, ast.Call) and ap(e.func) == "any" and len(e.args) == 1 and \
+                isinstance(e.args[0], (ast.GeneratorExp, ast.ListComp)):
+            g = e.args[0]
+            out.extend(atoms(g.elt, True))
+            for gen in g.generators:
+                for c in gen.ifs:
+                    out.extend(atoms(c, True))
+    return out
+
 
 def _seed_branch(ctx, fi) -> ast.If:
     found = []
@@ -960,23 +1035,35 @@ def r5(ctx, model: Model):
         ctx.ob("C16.R5", f"seed request: `{norm(n)}` is a per-name removal", False, ctx.w(rq, n),
                "the requested cap list is changed by something other than removing one proxy-only name")
 
-    def proxy_only_for(node, name_expr) -> bool:
+    def proxy_only_tests(node, name_expr):
+        """Type expressions of the cap named `name_expr` that are known to equal PROXY_ONLY at node."""
+        out = []
         if not isinstance(name_expr, ast.Name):
-            return False
-        for e, pol in facts(node, rq.node):
+            return out
+        for e, pol in _expanded_facts(node, rq.node):
             if isinstance(e, ast.Compare) and len(e.ops) == 1:
                 for x, y in ((e.left, e.comparators[0]), (e.comparators[0], e.left)):
                     if model.captype_member(y, rq.module) == "PROXY_ONLY" and fl.role_of(x) == TYPE and \
                             name_expr.id in fl.keys_for(x):
                         if (isinstance(e.ops[0], (ast.Eq, ast.Is)) and pol) or \
                                 (isinstance(e.ops[0], (ast.NotEq, ast.IsNot)) and not pol):
-                            return True
-        return False
+                            out.append(x)
+        return out
+
+    def proxy_only_for(node, name_expr) -> bool:
+        return bool(proxy_only_tests(node, name_expr))
     for n in removes:
         ctx.ob("C16.R5", f"seed request: `{norm(n)}` only for a name whose own cap type is PROXY_ONLY",
                proxy_only_for(n, n.args[0]), ctx.w(rq, n),
                "a capability the simulator must grant is stripped from the upstream request (or the type tested "
                "belongs to another cap)")
+        tests = proxy_only_tests(n, n.args[0])
+        if tests:
+            newest_only = [norm(x) for x in tests if "first" in fl.scope_for(x) or not fl.scope_for(x)]
+            ctx.ob("C16.R5", f"seed request: the strip decision for `{norm(n.args[0])}` considers every entry of that name",
+                   not newest_only, ctx.w(rq, n),
+                   f"{newest_only} come(s) from a by-name lookup, which only yields the newest entry: a PROXY_ONLY entry "
+                   f"shadowed by a later grant under the same name is sent upstream")
         twin = [r for r in records if norm(r.args[0]) == norm(n.args[0]) and
                 _branch_facts(r, br, rq.node) == _branch_facts(n, br, rq.node)]
         ctx.ob("C16.R5", f"seed request: `{norm(n)}` is recorded for the response", len(twin) >= 1, ctx.w(rq, n),
@@ -1091,6 +1178,158 @@ def r5(ctx, model: Model):
     ctx.floor("C16.R5", "loops over plain containers in the HTTP handlers", n_loops, 3)
 
 
+# --------------------------------------------------------------------------- R6
+
+# attributes of a region object that every session connected to the same simulator shares
+SHARED_REGION_ATTRS = {"circuit_addr", "handle", "name", "cache_id"}
+SESSION_ATTRS = {"session", "_session"}
+FRESH_CALLS = {"uuid.uuid4", "uuid4", "uuid.uuid1", "secrets.token_hex", "secrets.token_urlsafe", "secrets.token_bytes",
+               "os.urandom"}
+
+
+def _provenance(fl: RoleFlow, e, seen=None) -> Set[Tuple[str, str]]:
+    """Leaves an expression's value is computed from: ('shared'|'session'|'unknown', description)."""
+    seen = set() if seen is None else seen
+    fn = fl.fn
+    out: Set[Tuple[str, str]] = set()
+
+    def rec(x):
+        out.update(_provenance(fl, x, seen))
+    if e is None or isinstance(e, ast.Constant):
+        return out
+    if isinstance(e, ast.Name):
+        if e.id in seen:
+            return out
+        seen.add(e.id)
+        if e.id in fl.params:
+            out.add(("shared", f"parameter {e.id}"))
+            return out
+        vals = [st.value for st in stores(fn) if st.path == e.id and st.value is not None]
+        loops = [n for n in walk(fn, into_defs=True) if isinstance(n, (ast.For, ast.comprehension)) and
+                 e.id in {t.id for t in ast.walk(n.target) if isinstance(t, ast.Name)}]
+        if not vals and not loops:
+            if e.id in fl.mod.imports or e.id in ("str", "bytes", "int", "list", "tuple", "repr", "hex", "len"):
+                return out
+            out.add(("unknown", e.id))
+            return out
+        for v in vals:
+            rec(v)
+        for l in loops:
+            rec(l.iter)
+        return out
+    if isinstance(e, ast.Attribute):
+        p = ap(e) or ""
+        if fl.table_of(e) == "caps":
+            out.add(("shared", "the caps table"))
+            return out
+        if p.startswith("self."):
+            attr = p.split(".")[1].replace("()", "").replace("[]", "")
+            if attr in SESSION_ATTRS:
+                out.add(("session", f"self.{attr}"))
+            elif attr in SHARED_REGION_ATTRS:
+                out.add(("shared", f"self.{attr}"))
+            else:
+                out.add(("unknown", f"self.{attr}"))
+            return out
+        if isinstance(e.value, ast.Name) and e.value.id in fl.mod.imports:
+            return out  # module constant / function
+        rec(e.value)
+        return out
+    if isinstance(e, ast.Subscript):
+        if fl.table_of(e.value) == "caps":
+            k = e.slice
+            if isinstance(k, ast.Constant) and k.value == "Seed":
+                out.add(("session", "the region's Seed capability URL"))
+            else:
+                out.add(("shared", f"the URL of cap {norm(k)} (asset caps are global)"))
+                rec(k)
+            return out
+        rec(e.value)
+        rec(e.slice)
+        return out
+    if isinstance(e, ast.Call):
+        name = ap(e.func) or ""
+        if name in FRESH_CALLS:
+            out.add(("session", f"{name}()"))
+            return out
+        if isinstance(e.func, ast.Attribute):
+            base = e.func.value
+            if not (isinstance(base, ast.Name) and base.id in fl.mod.imports) and \
+                    not (isinstance(base, ast.Attribute) and isinstance(base.value, ast.Name) and base.value.id in fl.mod.imports):
+                if isinstance(base, ast.Attribute) and (ap(base) or "").startswith("self.") and \
+                        (ap(base) or "").split(".")[1] in SESSION_ATTRS:
+                    out.add(("session", ap(base)))
+                    return out
+                rec(base)
+        elif not isinstance(e.func, ast.Name):
+            rec(e.func)
+        if not e.args and not e.keywords and not isinstance(e.func, ast.Attribute):
+            out.add(("unknown", f"{name}()"))
+        if not e.args and not e.keywords and isinstance(e.func, ast.Attribute) and isinstance(e.func.value, ast.Name) and \
+                e.func.value.id in fl.mod.imports:
+            out.add(("unknown", f"{name}()"))
+        for a in e.args:
+            rec(a)
+        for k in e.keywords:
+            rec(k.value)
+        return out
+    if isinstance(e, (ast.JoinedStr, ast.BinOp, ast.BoolOp, ast.IfExp, ast.Tuple, ast.List, ast.Set, ast.Starred,
+                      ast.FormattedValue, ast.Slice, ast.UnaryOp, ast.Compare, ast.Dict, ast.GeneratorExp, ast.ListComp)):
+        for ch in ast.iter_child_nodes(e):
+            if isinstance(ch, (ast.expr, ast.comprehension)):
+                if isinstance(ch, ast.comprehension):
+                    rec(ch.iter)
+                else:
+                    rec(ch)
+        return out
+    out.add(("unknown", norm(e)))
+    return out
+
+
+def r6(ctx, model: Model):
+    repo = ctx.repo
+    ctx.rule("C16.R6", "URLs the proxy mints for WRAPPER / PROXY_ONLY caps are not computed solely from inputs that "
+                       "every session on the same simulator shares (cap name, circuit address, handle, the wrapped "
+                       "global URL): they must depend on the Seed URL, the session or a fresh random value")
+    n = 0
+    if model.api_param_roles.get("register_cap", [])[:3] != [NAME, URL, TYPE]:
+        ctx.note("C16.R6: register_cap's parameter roles are inconsistent (reported by C16.R1); minted URLs not analysed")
+        return
+    for m in sorted(model.region.methods.values(), key=lambda m: m.qual):
+        regs = [c for c in find_calls(m.node, "register_cap") if isinstance(c.func, ast.Attribute)]
+        if not regs:
+            continue
+        fl = RoleFlow(model, m)
+        pn = model.api_param_names.get("register_cap", [])
+        for c in regs:
+            def arg(nm):
+                if nm in pn and pn.index(nm) < len(c.args):
+                    return c.args[pn.index(nm)]
+                return next((k.value for k in c.keywords if k.arg == nm), None)
+            roles = model.api_param_roles.get("register_cap", [])
+            url_e = type_e = None
+            for nm, r in zip(pn, roles):
+                if r == URL:
+                    url_e = arg(nm)
+                elif r == TYPE:
+                    type_e = arg(nm)
+            kind = model.captype_member(type_e, m.module) if type_e is not None else None
+            if kind not in ("WRAPPER", "PROXY_ONLY") or url_e is None:
+                continue
+            n += 1
+            prov = _provenance(fl, url_e)
+            sess = sorted(d for k, d in prov if k == "session")
+            unk = sorted(d for k, d in prov if k == "unknown")
+            shared = sorted(d for k, d in prov if k == "shared")
+            if not sess and unk:
+                ctx.note(f"C16.R6: {m.qual}: {kind} URL depends on {unk} which the checker cannot classify")
+            ctx.ob("C16.R6", f"{m.qual}: the {kind} URL is tied to the session (Seed URL / session / fresh random value)",
+                   bool(sess) or bool(unk), ctx.w(m, c),
+                   f"`{norm(url_e)}` is computed only from {shared}: two sessions on the same simulator get the same URL "
+                   f"and requests are attributed to whichever session resolves first")
+    ctx.floor("C16.R6", "proxy-minted cap URLs", n, 2)
+
+
 def run(ctx):
     model = Model(ctx)
     r1(ctx, model)
@@ -1098,6 +1337,7 @@ def run(ctx):
     r3(ctx, model)
     r4(ctx, model)
     r5(ctx, model)
+    r6(ctx, model)
     ctx.note("C16: resolve_cap returns the first startswith() match in index order; resolution with prefix-related "
              "URLs across caps/regions/sessions is not decided")
     ctx.assume("multidict.MultiDict: add() appends, [] / get() return the first value, popall() removes all values "
